@@ -303,7 +303,9 @@ class RunModel(Analysis):
                 coro=arg, nwait=st.a('nwait', 0), susp=st.a('susp', False), gset=st.a('gset'), tf=st.a('tf'), cf=st.a('cf_flag'),
                 built=st.a('built', False), reg_reset=st.a('reg_reset', False),
                 ibase=next((c.base for c in reversed(ip.loopctx) if c.kind == 'for' and c.base is not None), None))
-        if kind in ('run', 'bare'):
+        if kind != 'shut':
+            # whatever the coroutine is (a job through its window, a bare job, or anything else - a monitor, a
+            # watchdog): a task the run creates is a task it has to cancel and await before it ends
             live = st.a('live', frozenset()) | frozenset([task])
             st = st.set(live=live, phase='Live' if phase in ('NoTasks', 'Live') else phase,
                         nstart=1)
